@@ -18,15 +18,17 @@ import (
 	"go.uber.org/thriftrw/plugin/api"
 	"go.uber.org/thriftrw/verifshim/vmap"
 	"verif/bridge/memfs"
+	"verif/checks/c07"
 	"verif/engine/choice"
 	"verif/engine/ev"
+	"verif/ref/resolve"
 )
 
 // Check is the registered check.
 var Check = &ev.Check{
 	ID:    "C10",
 	Level: "model_checking",
-	Rule: "programs: a collision family of multi-file programs built so that order can matter (k<=4 includes with equal base names in different directories, unreferenced includes, types whose helper names collide across files, " +
+	Rule: "programs: (B) every valid program of C07's systematic family (reference graphs of <=3 definitions over {typedef, struct, enum, const, service} in 7 include layouts; quick: <=2 definitions) under default options, and (A) a collision family of multi-file programs built so that order can matter (k<=4 includes with equal base names in different directories, unreferenced includes, types whose helper names collide across files, " +
 		"files named like imported runtime packages (fmt, wire, strings), constants of map/set/struct/list type, 5 services with inheritance across files, enums/unions/exceptions/typedef chains) x option sets {default, NoZap, EnumTextMarshalStrict, OutputFile, NoRecurse, NoEmbedIDL}. " +
 		"schedules: every map-iteration order (all n! for n<=4 keys; {reverse, rotations, adjacent transpositions} beyond) at every range-over-map execution in compile, gen, internal/plugin and plugin with at most 1 deviating execution (thorough: 2 on the small programs). " +
 		"A state is a node of the choice tree, a transition one order choice; every execution is a real compile+generate into a scratch directory with an in-process ServiceGenerator capturing the plugin request. " +
@@ -397,6 +399,72 @@ func run(w *ev.W) {
 			}
 		}
 	}
+	// family B: the systematic program family of C07 (every reference graph of <=3
+	// definitions over 5 kinds in 7 layouts), restricted to programs the reference
+	// resolver deems valid; default options; every map order with <=1 deviating execution
+	optDefault := optSets[0]
+	nB := 0
+	c07.Enumerate(w.Quick(), func(rp resolve.Prog, layout string) {
+		if len(w.R.Caps) > 0 || !w.Own() {
+			return
+		}
+		if w.Quick() && len(rp.Defs) == 3 {
+			return // quick: at most two definitions
+		}
+		if !rp.Resolve().Valid {
+			return
+		}
+		nB++
+		if nB&15 == 0 && w.Expired() {
+			w.Cap("time budget reached inside the systematic program family")
+			return
+		}
+		p := program{Name: "systematic:" + layout, Root: "f0.thrift", Files: map[string]string{}}
+		for path, text := range rp.Render() {
+			p.Files[strings.TrimPrefix(path, "/m/")] = text
+		}
+		w.Eval(1)
+		base := execute(p, optDefault, out, nil)
+		distinct := map[string][]string{}
+		ex := &choice.Explorer{Bound: 1}
+		ex.Body = func(c *choice.Ctx) {
+			r := execute(p, optDefault, out, c)
+			if _, ok := distinct[r]; !ok {
+				var lab []string
+				for i, pt := range c.Trace {
+					if pt.Choice != 0 {
+						lab = append(lab, fmt.Sprintf("%s#%d=order%d/%d", pt.Label, i, pt.Choice, pt.N))
+					}
+				}
+				distinct[r] = lab
+			}
+		}
+		ex.Run()
+		w.R.States += ex.Stats.States
+		w.R.Transitions += ex.Stats.Transitions
+		w.R.Traces += ex.Stats.Executions
+		w.Count("systematic_programs", 1)
+		w.Count("executions", ex.Stats.Executions)
+		if ex.Stats.MaxDepth > 0 {
+			w.Nontrivial(1)
+		}
+		w.Outcome("systematic:" + strings.SplitN(base, "\n", 2)[0])
+		distinct[base] = append(distinct[base], []string{}...)
+		if len(distinct) > 1 {
+			var descr []string
+			var other string
+			for r, lab := range distinct {
+				descr = append(descr, fmt.Sprintf("[%s under %v]", strings.SplitN(r, "\n", 2)[0], lab))
+				if r != base {
+					other = r
+				}
+			}
+			sort.Strings(descr)
+			w.Violation("nondeterministic:systematic:"+layout, fmt.Sprintf("program %v: %d different outputs depending on map iteration order: %s; differences: %s",
+				p.Files, len(distinct), strings.Join(descr, " "), diffLines(base, other)), map[string]interface{}{"program": p, "orders": distinct})
+		}
+		w.Done()
+	})
 	if w.Shard == 0 {
 		var sites []string
 		for s := range vmap.Sites {
